@@ -10,3 +10,4 @@ CONSTANTS
   MaxLabelName = 2
 INVARIANT IInv
 PROPERTY RefinesContract
+VIEW IView
